@@ -259,8 +259,9 @@ func (r *runner) allowed(e *expect) []time.Duration {
 	return a
 }
 
-// lenient: the reply of this call may come at any time or not at all.
-func callLenient(c *callRec) string {
+// callLenient: the reply of this call may come at any time or not at all.
+// r.mu is held.
+func (r *runner) callLenient(c *callRec) string {
 	switch {
 	case c.meta:
 		return ""
@@ -272,6 +273,13 @@ func callLenient(c *callRec) string {
 		return "callee gone"
 	case c.callee != nil && (c.callee.stalled):
 		return "callee stalled"
+	}
+	if c.callee == nil {
+		// no INVOCATION seen: the procedure may have been registered
+		// meanwhile (same burst) by a session that does not drain
+		if k := r.regMap(c.caller.spec.Realm)[c.proc]; k != nil && (k.stalled || k.expGone != "") {
+			return "callee stalled"
+		}
 	}
 	return ""
 }
@@ -395,8 +403,11 @@ func (r *runner) check(final bool) {
 				e.void = "request not taken"
 			case e.item != nil && e.item.state == itAccepted && e.item.acc > e.item.enq:
 				e.void = "request taken late"
-			case e.call != nil && callLenient(e.call) != "":
-				e.void = callLenient(e.call)
+			case e.call != nil && e.call.yielded != nil && e.call.yielded.state == itAccepted && e.call.yielded.acc > e.call.yielded.enq:
+				// flushed together with everything else the callee had queued
+				e.void = "callee's YIELD taken late"
+			case e.call != nil && r.callLenient(e.call) != "":
+				e.void = r.callLenient(e.call)
 			}
 			if e.void != "" {
 				continue
